@@ -242,7 +242,7 @@ func idGated(rec *trace.Recorder, dir string, rng *rand.Rand, h int) {
 	}
 	defer func() { index.VerifGate = nil }()
 	run := &idRun{rec: rec, db: db, dir: dir, known: map[idKey]bool{}}
-	scenario := []string{"recheck-mem", "recheck-disk", "stale-cache", "random"}[h%4]
+	scenario := []string{"recheck-mem", "recheck-disk", "stale-cache", "random", "schema-flush"}[h%5]
 	rec.Reset(trace.F{"mode": "gated", "scenario": scenario, "h": h})
 	// a persisted base so that buckets exist on disk
 	base, _ := run.genMetric("main", "base")
@@ -288,6 +288,25 @@ func idGated(rec *trace.Recorder, dir string, rng *rand.Rand, h int) {
 		run.genTagValue("main", kid, "y")
 		run.flush()
 		close(release)
+	case "schema-flush":
+		// the flush wrote the immutable schemas and parks before it marks them persisted; main adds a tag key
+		// and a field to a schema that is being flushed; after that flush and one more (the schema leaves memory)
+		// both names must still have their ids
+		run.genField("main", base, "f0")
+		run.flush()
+		run.genTagKey("main", base, "zone") // something to flush for this metric
+		startBG("schemastore.flushed", func() { run.flush() })
+		run.genTagKey("main", base, "late")
+		run.genField("main", base, "flate")
+		close(release)
+		<-done
+		run.genTagKey("main", base, "z2")
+		run.flush()
+		run.genTagKey("main", base, "late")
+		run.genField("main", base, "flate")
+		run.lookupAll("main")
+		_ = db.Close()
+		return
 	case "stale-cache":
 		// T loaded the bucket from the old snapshot and parks before caching it; a flush swaps the
 		// snapshot and purges the cache; T then caches the stale bucket
